@@ -171,7 +171,7 @@ UpPut(r, h, cr, st, dig, chunk) ==
           /\ sess' = [sess EXCEPT ![h].open = FALSE]          \* completed or failed verification: the session is gone
           /\ IF DataIs(data, dig) /\ sess[h].expect \in {"", dig}
              THEN /\ blob' = [blob EXCEPT ![r] = @ \cup {dig}]
-                  /\ young' = [young EXCEPT ![r] = @ \cup ({dig} \ blob[r])]
+                  /\ young' = [young EXCEPT ![r] = @ \cup {dig}]      \* a completed upload is recent, also of content already held
                   /\ resp' = [Ok(201) EXCEPT !.dig = dig]
              ELSE resp' = Refused /\ UNCHANGED <<blob, young>>
 
@@ -261,11 +261,26 @@ Resolve(r, ref) ==
   ELSE IF ref.k = "dig" THEN (IF ref.v \in DOMAIN man[r] THEN ref.v ELSE "")
   ELSE ""
 
-\* GET|HEAD /v2/<r>/manifests/<ref> with an Accept list that contains the stored type  (manifest.go: manifestGet)
-ManGet(r, ref, rg) ==
+\* GET|HEAD /v2/<r>/manifests/<ref>  (manifest.go: manifestGet).  acc is the class of the Accept header: a list that
+\* contains every supported type ("all", "comma", "commarev"), a single media type, or "none".  The properties only
+\* quantify over lists that contain the stored type; a tag that points to an index, asked for with an image type
+\* only, is answered with the first child of that type (platform resolution) -- whatever is served must hash to
+\* the digest it is served under (C01).
+AcceptsAll(acc) == acc \in {"all", "comma", "commarev", ""}
+FirstChild(d, acc) ==
+  LET ch == M(CidOf(d)).children
+      I == {i \in DOMAIN ch : IsMan(ch[i]) /\ M(CidOf(ch[i])).mt = acc}
+  IN IF I = {} THEN "" ELSE ch[CHOOSE i \in I : \A j \in I : i <= j]
+ManGet(r, ref, rg, acc) ==
   /\ UNCHANGED <<blob, man, tag, sess, nsess, young>>
   /\ LET d == Resolve(r, ref) IN
-     resp' = IF d # "" /\ d \in blob[r] THEN ReadResp(d, man[r][d], rg) ELSE Refused
+     resp' = IF d = "" \/ d \notin blob[r] THEN Refused
+             ELSE IF AcceptsAll(acc) \/ acc = man[r][d] THEN ReadResp(d, man[r][d], rg)
+             ELSE IF acc = "none" THEN [Refused EXCEPT !.class = "any"]
+             ELSE IF ref.k = "tag" /\ KindOfMT(man[r][d]) = "index" /\ FirstChild(d, acc) # ""
+                  THEN LET c == FirstChild(d, acc) IN
+                       IF c \in blob[r] THEN ReadResp(c, acc, rg) ELSE [Refused EXCEPT !.class = "any"]
+             ELSE Refused
 
 \* DELETE /v2/<r>/manifests/<ref>  (manifest.go: manifestDelete)
 ManDel(r, ref) ==
@@ -417,7 +432,7 @@ Do(op) ==
     [] op.op = "BlobGet"  -> BlobGet(op.repo, op.dig, op.range) /\ UNCHANGED <<env, base, man, tag>>
     [] op.op = "BlobDel"  -> BlobDel(op.repo, op.dig) /\ UNCHANGED <<env, base, man, tag>>
     [] op.op = "ManPut"   -> ManPut(op.repo, op.ref, op.ctype, op.body, op.dparam) /\ UNCHANGED <<env, base>>
-    [] op.op = "ManGet"   -> ManGet(op.repo, op.ref, op.range) /\ UNCHANGED <<env, base>>
+    [] op.op = "ManGet"   -> ManGet(op.repo, op.ref, op.range, op.accept) /\ UNCHANGED <<env, base>>
     [] op.op = "ManDel"   -> ManDel(op.repo, op.ref) /\ UNCHANGED <<env, base>>
     [] op.op = "TagsList" -> TagsList(op.repo, op.ni, op.last) /\ UNCHANGED <<env, base>>
     [] op.op = "Restart"  -> Restart
